@@ -1,4 +1,7 @@
 import DclabModel.Model.Writer
+import DclabModel.Model.WriterMeta
+import DclabModel.Model.WriterTable
+import DclabModel.Gen.MetaTable
 import DclabModel.DriveUtil
 /-! Line-protocol driver for the writer model (C01).
 
@@ -9,14 +12,27 @@ import DclabModel.DriveUtil
     contour <tok> …                         store_feature("contour", [...])
     log <name> <line> …                     line = bytes `b.b.b`, `-` = empty line
     table <name> <col,col> <tok,tok> …      one word per row
+    tabled <name> <col,col> <tok,tok> …     store_table with a dict: one word per COLUMN (`dictRecords`)
     close                                   writer exit           → `ok` | `err`
     view   → what the readers see   `F n=t,t … | T … | C t,t | L n=b.b/b.b … | B n=c,c:t,t/t,t …`
     spec   → the same for the specification
     brandname <s>                           the entry `version_brand` appends (spaces as `_`)
     vmeta <e|e|…>  or  vmeta -              store_metadata with / without a software version
-    raw    → `K n=chunk … | TK n=chunk … | CN 0,1,… | W n=width … | N evcount | V e|e|…`
+    raw    → `K n=chunk … | TK n=chunk … | CN 0,1,… | W n=width … | N evcount | V e|e|… | TS n=RxC …`
+             (TS = shape of every stored table: `Rx1` from a dict, `R` from a recarray)
+    meta <sec>:<key>=<val> …                store_metadata without the software version; section
+                                            and key as code points `c.c.c`, values `s:c.c`, `i:n`,
+                                            `f:p/q`, `b:0|1` (as in Drive/C11.lean)  → `ok` | `err`
+    attrs  → `M sec:key=val … | MS … | MR …`  attributes of the model file (numpy types `I: F: B:`),
+                                            of the finite-map specification, and what
+                                            `parse_config` makes of them (`!` = converter error);
+                                            keys = every key a `meta` line named + the event count
 -/
 open DclabModel.Writer DclabModel.DriveUtil
+open DclabModel.Meta (Str PyVal Scal F Attrs Tbl kEventCount)
+open DclabModel.WriterMeta (XOp XSt MMap Key Entry xstep mspecStep readMeta)
+
+def metaTbl : Tbl := DclabModel.Gen.MetaTable.tbl
 
 structure D where
   cfg : Cfg := { chunkBytes := 1048576 }
@@ -28,6 +44,10 @@ structure D where
   bn : List String := []
   ver : List String := []
   dclab : String := "dclab"
+  attrs : Attrs := []
+  ms : MMap := fun _ => none
+  mkeys : List Key := [kEventCount]
+  tsh : List (String × TableShape) := []
 
 def addName (l : List String) (n : String) : List String := if l.contains n then l else n :: l
 
@@ -77,11 +97,74 @@ def showRaw (d : D) : String :=
     | none => "-"
     | some x => toString x
   "K " ++ joinWith " " k ++ " | TK " ++ joinWith " " tk ++ " | CN " ++ cn ++ " | W " ++
-    joinWith " " w ++ " | N " ++ n ++ " | V " ++ joinWith "|" d.ver
+    joinWith " " w ++ " | N " ++ n ++ " | V " ++ joinWith "|" d.ver ++ " | TS " ++
+    joinWith " " ((sorted d.bn).filterMap fun n => (lookup n d.tsh).map fun
+      | .flat r => s!"{n}={r}"
+      | .column1 r => s!"{n}={r}x1")
 
-def doOp (d : D) (op : Op) : D × String :=
-  let (st', o) := step d.cfg d.st op
-  ({ d with st := st', sp := specStep d.sp op }, showOut o)
+def parseCps (s : String) : Option Str :=
+  if s = "" then some [] else (s.splitOn ".").mapM (·.toNat?)
+
+def dropN (s : String) (n : Nat) : String := (s.drop n).toString
+
+def parseF? (s : String) : Option F :=
+  if s = "nan" then some .nan else if s = "+inf" then some .pinf
+  else if s = "-inf" then some .ninf else (parseRat? s).map .fin
+
+def parseScal (s : String) : Option Scal :=
+  if s.startsWith "s:" then (parseCps (dropN s 2)).map .str
+  else if s.startsWith "i:" then (parseInt? (dropN s 2)).map .int
+  else if s.startsWith "f:" then (parseF? (dropN s 2)).map .float
+  else if s = "b:1" then some (.bool true)
+  else if s = "b:0" then some (.bool false)
+  else none
+
+/-- `sec:key=val` -/
+def parseEntry (w : String) : Option Entry :=
+  match w.splitOn "=" with
+  | [k, v] => match k.splitOn ":" with
+    | [sec, key] => do
+      let s ← parseCps sec
+      let c ← parseCps key
+      let x ← parseScal v
+      some (s, c, .sc x)
+    | _ => none
+  | _ => none
+
+def showCps (s : Str) : String := joinWith "." (s.map toString)
+def showF : F → String
+  | .fin q => showRat q | .nan => "nan" | .pinf => "+inf" | .ninf => "-inf"
+def showB (b : Bool) : String := if b then "1" else "0"
+
+def showVal : PyVal → String
+  | .sc (.str s) => "s:" ++ showCps s
+  | .sc (.int z) => s!"i:{z}"
+  | .sc (.float x) => "f:" ++ showF x
+  | .sc (.bool b) => "b:" ++ showB b
+  | .sc (.npInt z) => s!"I:{z}"
+  | .sc (.npFloat x) => "F:" ++ showF x
+  | .sc (.npBool b) => "B:" ++ showB b
+  | _ => "?"
+
+def showKey (k : Key) : String := showCps k.1 ++ ":" ++ showCps k.2
+
+def showAttrs (d : D) : String :=
+  let ks := d.mkeys.reverse
+  let m := ks.filterMap fun k => (d.attrs.get? k).map fun v => showKey k ++ "=" ++ showVal v
+  let sp := ks.filterMap fun k => (d.ms k).map fun v => showKey k ++ "=" ++ showVal v
+  let r := ks.filterMap fun k => (readMeta metaTbl d.attrs k).map fun v =>
+    showKey k ++ "=" ++ (match v with | .ok w => showVal w | .error _ => "!")
+  "M " ++ joinWith " " m ++ " | MS " ++ joinWith " " sp ++ " | MR " ++ joinWith " " r
+
+def doX (d : D) (op : XOp) : D × String :=
+  let (x', o) := xstep d.cfg metaTbl { s := d.st, a := d.attrs } op
+  let sp' := match op with
+    | .w o => specStep d.sp o
+    | .store _ => d.sp
+  ({ d with st := x'.s, attrs := x'.a, sp := sp', ms := mspecStep d.cfg.count metaTbl d.st.f d.ms op },
+    showOut o)
+
+def doOp (d : D) (op : Op) : D × String := doX d (.w op)
 
 def handle (d : D) (line : String) : D × String :=
   match words line with
@@ -90,7 +173,8 @@ def handle (d : D) (line : String) : D × String :=
     | some c, "old" => ({ cfg := { chunkBytes := c, text := .old }, dclab := d.dclab }, "ok")
     | _, _ => (d, "bad-op")
   | ["open", m] => match parseMode m with
-    | some m => doOp { d with ver := if m = .reset then verStep d.dclab d.ver .reset else d.ver } (.openW m)
+    | some m => doOp { d with ver := if m = .reset then verStep d.dclab d.ver .reset else d.ver,
+                              tsh := if m = .reset then [] else d.tsh } (.openW m)
     | none => (d, "bad-op")
   | ["brandname", b] => ({ d with dclab := b }, "ok")
   | ["vmeta", v] =>
@@ -114,8 +198,22 @@ def handle (d : D) (line : String) : D × String :=
   | "table" :: name :: cols :: rows =>
     match rows.mapM (fun r => parseNats (r.splitOn ",")) with
     | some cells =>
-      doOp { d with bn := addName d.bn name } (.table name { cols := cols.splitOn ",", cells := cells })
+      let (d', o) := doOp { d with bn := addName d.bn name } (.table name { cols := cols.splitOn ",", cells := cells })
+      (if o = "ok" then { d' with tsh := put name (tableShape false cells) d'.tsh } else d', o)
     | none => (d, "bad-op")
+  | "tabled" :: name :: cols :: colws =>
+    match colws.mapM (fun r => parseNats (r.splitOn ",")) with
+    | some colvals =>
+      let cells := dictRecords colvals
+      let (d', o) := doOp { d with bn := addName d.bn name } (.table name { cols := cols.splitOn ",", cells := cells })
+      (if o = "ok" then { d' with tsh := put name (tableShape true cells) d'.tsh } else d', o)
+    | none => (d, "bad-op")
+  | "meta" :: es => match es.mapM parseEntry with
+    | some l =>
+      doX { d with mkeys := l.foldl (fun acc e => if acc.contains (e.1, e.2.1) then acc else (e.1, e.2.1) :: acc) d.mkeys }
+        (.store l)
+    | none => (d, "bad-op")
+  | ["attrs"] => (d, showAttrs d)
   | ["close"] => doOp { d with ver := verStep d.dclab d.ver .close } .close
   | ["view"] => (d, showView d (read d.st.f))
   | ["spec"] => (d, showView d d.sp.view)
